@@ -57,6 +57,7 @@ struct RunResult {
   std::vector<int64_t> tick_ms; // virtual time at the start of tick i
   std::map<std::string, int> stats_after;
   std::map<uint64_t, std::string> inodes; // every cgroup dir inode -> path
+  std::map<uint64_t, std::map<std::string, std::string>> initial_xattrs;
   std::string cgroot;
   int ticks_run{0};
   long accesses{0};
